@@ -14,7 +14,10 @@ pub fn set_buf(base: usize, len: usize) {
     BUF.with(|b| b.set((base, len)));
 }
 
-fn refhdr(kind: char, ptr: usize, nbytes: usize, count: usize, out: &mut String) {
+fn refhdr(kind: char, ptr: usize, nbytes: usize, count: usize, align: usize, out: &mut String) {
+    if ptr % align != 0 {
+        out.push_str("MISALIGNED");
+    }
     if nbytes == 0 {
         out.push_str(&format!("&{}zst+0x{:x}:", kind, count));
         return;
@@ -69,7 +72,7 @@ impl Obs for String { fn obs(&self, out: &mut String) { hexs(self.as_bytes(), ou
 impl Obs for Box<str> { fn obs(&self, out: &mut String) { hexs(self.as_bytes(), out); } }
 impl<'a> Obs for &'a str {
     fn obs(&self, out: &mut String) {
-        refhdr('T', self.as_ptr() as usize, self.len(), self.len(), out);
+        refhdr('T', self.as_ptr() as usize, self.len(), self.len(), 1, out);
         hexs(self.as_bytes(), out);
     }
 }
@@ -87,13 +90,13 @@ impl<T: Obs> Obs for Box<[T]> { fn obs(&self, out: &mut String) { seq(self, out)
 impl<T: Obs, const N: usize> Obs for [T; N] { fn obs(&self, out: &mut String) { seq(self, out); } }
 impl<'a, T: Obs> Obs for &'a [T] {
     fn obs(&self, out: &mut String) {
-        refhdr('S', self.as_ptr() as usize, core::mem::size_of_val::<[T]>(self), self.len(), out);
+        refhdr('S', self.as_ptr() as usize, core::mem::size_of_val::<[T]>(self), self.len(), core::mem::align_of::<T>(), out);
         seq(self, out);
     }
 }
 impl<'a, T: Obs> Obs for &'a T {
     fn obs(&self, out: &mut String) {
-        refhdr('O', *self as *const T as usize, core::mem::size_of::<T>(), 1, out);
+        refhdr('O', *self as *const T as usize, core::mem::size_of::<T>(), 1, core::mem::align_of::<T>(), out);
         (**self).obs(out);
     }
 }
